@@ -96,6 +96,14 @@ func transforms(s *scn.Scenario) []*scn.Scenario {
 		})
 		add(func(t *scn.Scenario) bool {
 			u := &t.UEs[i]
+			if u.Fill == 0 && u.CauseVal == 0 {
+				return false
+			}
+			u.Fill, u.CauseVal = 0, 0
+			return true
+		})
+		add(func(t *scn.Scenario) bool {
+			u := &t.UEs[i]
 			if u.QoSRuleLen == 6 {
 				return false
 			}
@@ -202,7 +210,30 @@ func shrinkHistories(cur *scn.Scenario, curRun *Run, key string, fires func(*scn
 		steps++
 	}
 	hs, _ = cur.Rig["histories"].([]interface{})
-	if len(hs) != 1 {
+	if len(hs) > 1 {
+		// the failure needs more than one history in the process (state carried from one to the
+		// next): delta-debug the list of histories instead
+		for chunk := len(hs) / 2; chunk >= 1 && steps < 200; {
+			hs, _ = cur.Rig["histories"].([]interface{})
+			removed := false
+			for start := 0; start+chunk <= len(hs) && steps < 200; start += chunk {
+				cand := append(append([]interface{}{}, hs[:start]...), hs[start+chunk:]...)
+				if len(cand) == 0 {
+					continue
+				}
+				t := cloneScn(cur)
+				t.Rig["histories"] = cand
+				r, ok := fires(t)
+				steps++
+				if ok {
+					cur, curRun, removed = t, r, true
+					break
+				}
+			}
+			if !removed {
+				chunk /= 2
+			}
+		}
 		return cur, curRun, steps
 	}
 	opsOf := func(s *scn.Scenario) []interface{} {
